@@ -108,11 +108,13 @@ pub struct LabCfg {
     pub fault: u8,
     pub client_stats: bool,
     pub status_interval: Duration,
+    /// TCP health-check port (None = disabled)
+    pub health_port: Option<u16>,
 }
 
 impl Default for LabCfg {
     fn default() -> Self {
-        LabCfg { seed: vec![7u8; 32], batch_size: 64, fault: 0, client_stats: false, status_interval: Duration::from_secs(600) }
+        LabCfg { seed: vec![7u8; 32], batch_size: 64, fault: 0, client_stats: false, status_interval: Duration::from_secs(600), health_port: None }
     }
 }
 
@@ -169,7 +171,7 @@ impl Lab {
             batch_size: cfg.batch_size,
             status_interval: cfg.status_interval,
             kms_protection: KmsProtection::Plaintext,
-            health_check_port: None,
+            health_check_port: cfg.health_port,
             client_stats: cfg.client_stats,
             fault_percentage: cfg.fault,
             num_workers: 1,
@@ -199,7 +201,7 @@ impl Lab {
         let pk = RefKey::from_seed(&seed).public();
         let srv = srv_value(&pk);
         let socks = (0..nsocks).map(|_| client_socket()).collect();
-        let cfg = LabCfg { seed, batch_size: config.batch_size(), fault: config.fault_percentage(), client_stats: config.client_stats_enabled(), status_interval: config.status_interval() };
+        let cfg = LabCfg { seed, batch_size: config.batch_size(), fault: config.fault_percentage(), client_stats: config.client_stats_enabled(), status_interval: config.status_interval(), health_port: config.health_check_port() };
         Ok(Lab { server, events: mio::Events::with_capacity(1024), addr, pk, srv, socks, sentinel: client_socket(), queue, cfg, sentinel_ctr: 0, born: Instant::now(), patience: Duration::from_secs(5), force_sentinel: None })
     }
 
